@@ -281,17 +281,22 @@ class UTPM(Ring, RawAlgorithmsMixIn):
         ybar, dummy, xbar = out
         # print 'xbar =', xbar
         # print 'ybar =', ybar
+
+        # the adjoint of the overwritten entries moves to x.  Take it out of
+        # ybar first: x may be a view of y itself (y[0:2] = y[1:3], or a read
+        # entry written back), and then xbar shares memory with ybar[sl]
+        ysbar = ybar[sl].copy()
+        ybar[sl].data[...] = 0.
         if xbar is None:
             # x is a constant array (it has no adjoint)
             pass
-        elif isinstance(xbar, cls) and xbar.shape != ybar[sl].shape:
+        elif isinstance(xbar, cls) and xbar.shape != ysbar.shape:
             # x was broadcast into y[sl]: every element of x collects the
             # adjoints of all the entries it was copied to
-            xbar2, tmp = cls.broadcast(xbar, ybar[sl])
+            xbar2, tmp = cls.broadcast(xbar, ysbar)
             workaround_strides_function(xbar2, tmp, operator.iadd)
         else:
-            xbar += ybar[sl]
-        ybar[sl].data[...] = 0.
+            xbar += ysbar
         # print 'funcargs=',funcargs
         # print y[funcargs[0]]
 
